@@ -133,7 +133,8 @@ Definition file_source (incl : bool) : source world fsrc :=
 (* ---------- HTTPPolicySource ---------- *)
 Record hsrc := {
   h_etag : option tag;             (* _etag: ETag header of the last answer whose body was parsed *)
-  h_cache : option doc             (* _policy_cache: last successfully parsed document *)
+  h_cache : option doc;            (* _policy_cache: last successfully parsed document *)
+  h_n304 : nat                     (* ghost: number of 304 answers received (conditional GETs that matched) *)
 }.
 
 (* [etags]: whether the server sends ETag headers and honours If-None-Match. *)
@@ -147,13 +148,14 @@ Definition http_source (etags : bool) : source world hsrc :=
             | Some (b, _) =>
                 if etags && same_tag (h_etag st) (Some (THttp b)) then
                   (* If-None-Match matched: 304, the cached document (or {} when there is none) *)
-                  (st, SOk match h_cache st with Some d => d | None => 0 end)
+                  ({| h_etag := h_etag st; h_cache := h_cache st; h_n304 := S (h_n304 st) |},
+                   SOk match h_cache st with Some d => d | None => 0 end)
                 else
                   (* 200: the ETag header is remembered together with a successfully parsed body
                      only (commit e788bd5); an unparsable body leaves the source as it was *)
                   match parse b with
                   | SOk d => ({| h_etag := if etags then Some (THttp b) else h_etag st;
-                                 h_cache := Some d |}, SOk d)
+                                 h_cache := Some d; h_n304 := h_n304 st |}, SOk d)
                   | SErr => (st, SErr)
                   end
             end |}.
